@@ -163,6 +163,7 @@ HPacket(fd, p) ==      \* leaves proc and xvars to the caller
        ELSE ConnFailure(fd, "EBADRESP")                                           \* unparsable: connection error
   ELSE IF p.kind = "badcookie" \/ p.clen > 8 THEN oos' = TRUE /\ UNCHANGED <<cfg, now, srv, fdi, q, owedF, owedO>>
   ELSE IF p.qid \notin DOMAIN q \/ ~SameQuestion(q[p.qid], p) THEN UNCHANGED <<cfg, now, srv, fdi, q, owedF, owedO, oos>>
+  ELSE IF q[p.qid].st = "inflight" /\ q[p.qid].fd # fd THEN UNCHANGED <<cfg, now, srv, fdi, q, owedF, owedO, oos>>   \* not its current connection (C05)
   ELSE LET rec == q[p.qid] IN
        IF rec.st # "inflight" THEN oos' = TRUE /\ UNCHANGED <<cfg, now, srv, fdi, q, owedF, owedO>>
        ELSE IF p.rcode = 1 /\ rec.edns /\ (p.opt = 0 \/ rec.sentopts) THEN
